@@ -511,6 +511,9 @@ func (r *Run) mutexOf(p *value) *mutexState {
 
 func (r *Run) mutexLock(fr *frame, p *value) {
 	m := r.mutexOf(p)
+	if r.preemptLocks {
+		r.preemptPoint(fr) // another thread may run before this lock is taken
+	}
 	th := r.curThread(fr)
 	r.sched.block(fr, th, func() bool { return !m.locked && m.readers == 0 }, "mutex lock at "+fr.pos())
 	m.locked = true
@@ -528,6 +531,9 @@ func (r *Run) mutexUnlock(fr *frame, p *value) {
 
 func (r *Run) mutexRLock(fr *frame, p *value) {
 	m := r.mutexOf(p)
+	if r.preemptLocks {
+		r.preemptPoint(fr)
+	}
 	th := r.curThread(fr)
 	r.sched.block(fr, th, func() bool { return !m.locked }, "rwmutex rlock at "+fr.pos())
 	m.readers++
